@@ -241,238 +241,265 @@ func runC16(r *mc.Run) {
 		}
 		shapes = append(shapes, shape{v.name, w3.Raw(), w3})
 	}
-	for _, sh := range shapes {
-		raw0 := sh.raw
-		w := w
-		if sh.w != nil {
-			w = sh.w
+	// (i) and (i') run twice: with the library's logger at its default level and at verbosity 2 (log output stays
+	// discarded) — preparing a log line must not write to the caller's data either
+	for _, lvl := range []int{0, 2} {
+		world.SetLogLevel(lvl)
+		lvlTag := ""
+		if lvl != 0 {
+			lvlTag = fmt.Sprintf(",log-level=%d", lvl)
 		}
-		parsed, err := safeToProto(raw0)
-		if err != nil {
-			r.HarnessError("C16: quote shape %s does not parse: %v", sh.name, err)
-			return
-		}
-		modes := []mode{
-			{"parsed", func() *pb.QuoteV4 { q, _ := safeToProto(raw0); return q }},
-			{"rebuilt/spare=0", func() *pb.QuoteV4 { return c16Rebuild(parsed, 0) }},
-			{"rebuilt/spare=1", func() *pb.QuoteV4 { return c16Rebuild(parsed, 1) }},
-			{"rebuilt/spare=4096", func() *pb.QuoteV4 { return c16Rebuild(parsed, 4096) }},
-			{"proto-wire", func() *pb.QuoteV4 {
-				b, _ := proto.Marshal(parsed)
-				q := &pb.QuoteV4{}
-				proto.Unmarshal(b, q)
-				return q
-			}},
-			{"proto-text", func() *pb.QuoteV4 {
-				b, _ := prototext.Marshal(parsed)
-				q := &pb.QuoteV4{}
-				prototext.Unmarshal(b, q)
-				return q
-			}},
-		}
-		// assembled field by field with derived size fields left at their zero value: every non-empty subset of
-		// {signed data size, certification data size, QE auth data size, chain size} (base shape; all four elsewhere)
-		for mask := 1; mask < 16; mask++ {
-			if sh.name != "base" && mask != 15 {
+		for _, sh := range shapes {
+			if lvl != 0 && strings.HasPrefix(sh.name, "chain/") {
 				continue
 			}
-			mask := mask
-			modes = append(modes, mode{fmt.Sprintf("rebuilt/sizes-unset=%04b", mask), func() *pb.QuoteV4 {
-				q := c16Rebuild(parsed, 8)
-				if mask&1 != 0 {
-					q.SignedDataSize = 0
-				}
-				if cd := q.GetSignedData().GetCertificationData(); cd != nil {
-					if mask&2 != 0 {
-						cd.Size = 0
-					}
-					if qc := cd.GetQeReportCertificationData(); qc != nil {
-						if a := qc.GetQeAuthData(); a != nil && mask&4 != 0 {
-							a.ParsedDataSize = 0
-						}
-						if ch := qc.GetPckCertificateChainData(); ch != nil && mask&8 != 0 {
-							ch.Size = 0
-						}
-					}
-				}
-				return q
-			}})
-		}
-		// (i) write monitor
-		for _, m := range modes {
-			for _, op := range ops {
-				id := "write/" + m.name + "/" + op.name
-				if sh.name != "base" {
-					id = "write/" + sh.name + "/" + m.name + "/" + op.name
-				}
-				if !r.Want(id) {
+			raw0 := sh.raw
+			w := w
+			if sh.w != nil {
+				w = sh.w
+			}
+			parsed, err := safeToProto(raw0)
+			if err != nil {
+				r.HarnessError("C16: quote shape %s does not parse: %v", sh.name, err)
+				return
+			}
+			modes := []mode{
+				{"parsed", func() *pb.QuoteV4 { q, _ := safeToProto(raw0); return q }},
+				{"rebuilt/spare=0", func() *pb.QuoteV4 { return c16Rebuild(parsed, 0) }},
+				{"rebuilt/spare=1", func() *pb.QuoteV4 { return c16Rebuild(parsed, 1) }},
+				{"rebuilt/spare=4096", func() *pb.QuoteV4 { return c16Rebuild(parsed, 4096) }},
+				{"proto-wire", func() *pb.QuoteV4 {
+					b, _ := proto.Marshal(parsed)
+					q := &pb.QuoteV4{}
+					proto.Unmarshal(b, q)
+					return q
+				}},
+				{"proto-text", func() *pb.QuoteV4 {
+					b, _ := prototext.Marshal(parsed)
+					q := &pb.QuoteV4{}
+					prototext.Unmarshal(b, q)
+					return q
+				}},
+			}
+			// assembled field by field with derived size fields left at their zero value: every non-empty subset of
+			// {signed data size, certification data size, QE auth data size, chain size} (base shape; all four elsewhere)
+			for mask := 1; mask < 16; mask++ {
+				if sh.name != "base" && mask != 15 {
 					continue
 				}
-				q := m.build()
-				raw := append(make([]byte, 0, len(raw0)+512), raw0...)
-				vo := c16ValidateOpts(raw0)
-				ar, aerr := memwatch.New(1 << 21)
-				if aerr != nil {
-					r.HarnessError("C16: cannot map the arena: %v", aerr)
-					return
+				mask := mask
+				modes = append(modes, mode{fmt.Sprintf("rebuilt/sizes-unset=%04b", mask), func() *pb.QuoteV4 {
+					q := c16Rebuild(parsed, 8)
+					if mask&1 != 0 {
+						q.SignedDataSize = 0
+					}
+					if cd := q.GetSignedData().GetCertificationData(); cd != nil {
+						if mask&2 != 0 {
+							cd.Size = 0
+						}
+						if qc := cd.GetQeReportCertificationData(); qc != nil {
+							if a := qc.GetQeAuthData(); a != nil && mask&4 != 0 {
+								a.ParsedDataSize = 0
+							}
+							if ch := qc.GetPckCertificateChainData(); ch != nil && mask&8 != 0 {
+								ch.Size = 0
+							}
+						}
+					}
+					return q
+				}})
+			}
+			// (i) write monitor
+			for _, m := range modes {
+				for _, op := range ops {
+					id := "write/" + m.name + "/" + op.name
+					if sh.name != "base" {
+						id = "write/" + sh.name + "/" + m.name + "/" + op.name
+					}
+					id += lvlTag
+					if !r.Want(id) && !r.Want(id+"/unprotected") {
+						continue
+					}
+					for pass := 0; pass < 2; pass++ {
+						// pass 0: the arena is read-only and a store traps; pass 1: the arena stays writable and a store
+						// shows as changed bytes (fmt swallows a trap raised inside a String / Error method it calls)
+						if pass == 1 {
+							id += "/unprotected"
+						}
+						q := m.build()
+						raw := append(make([]byte, 0, len(raw0)+512), raw0...)
+						vo := c16ValidateOpts(raw0)
+						ar, aerr := memwatch.New(1 << 21)
+						if aerr != nil {
+							r.HarnessError("C16: cannot map the arena: %v", aerr)
+							return
+						}
+						n, rerr := ar.Rehome(q, &raw, vo)
+						if rerr != nil {
+							r.HarnessError("C16: %v", rerr)
+							ar.Free()
+							return
+						}
+						before := ar.Snapshot()
+						whole := proto.Clone(q) // the scalar fields of the message are caller-owned memory as well
+						var out string
+						var fault *memwatch.Fault
+						var other any
+						if pass == 0 {
+							fault, other = ar.Guard(func() { out = op.run(q, raw, vo, w) })
+						} else {
+							other = ar.GuardOpen(func() { out = op.run(q, raw, vo, w) })
+						}
+						switch {
+						case fault != nil:
+							site := faultSite(fault.Stack)
+							r.Violate("write:"+op.name+":"+site, id, fmt.Sprintf("%s writes to memory reachable from the quote / raw input / options (%d protected slices, construction %s): store at arena offset faulted in %s", op.name, n, m.name, site),
+								map[string]any{"stack": trimStack(fault.Stack)})
+							out = "WRITE@" + site
+						case other != nil:
+							out = "panic"
+						case !bytes.Equal(before, ar.Snapshot()):
+							r.Violate("write:snapshot:"+op.name, id, op.name+" changed bytes of the caller's quote message / raw input / option byte strings", nil)
+							out = "changed"
+						case !proto.Equal(q, whole):
+							r.Violate("write:message-field:"+op.name, id, op.name+" changed a (non-bytes) field of the caller's quote message: "+firstDiff(q, whole.(*pb.QuoteV4)), nil)
+							out = "changed-field"
+						}
+						ar.Free()
+						r.Eval(id, true, "write:"+firstWord(out))
+					}
 				}
-				n, rerr := ar.Rehome(q, &raw, vo)
-				if rerr != nil {
-					r.HarnessError("C16: %v", rerr)
+			}
+		}
+		// (i') option shapes: validation must leave the caller's options value as it found it — the byte strings (page
+		// protection) and the lists that hold them (comparison with a deep copy), for lists with empty / nil entries too
+		{
+			type voShape struct {
+				name string
+				mk   func() *validate.Options
+			}
+			regs := func(i int) []byte { return append(make([]byte, 0, 64), raw0[48+328+48*i:48+376+48*i]...) }
+			voShapes := []voShape{
+				{"rtmrs-with-empty-entries", func() *validate.Options {
+					o := &validate.Options{}
+					o.TdQuoteBodyOptions.Rtmrs = [][]byte{regs(0), {}, nil, regs(3)}
+					return o
+				}},
+				{"rtmrs-all-empty", func() *validate.Options {
+					o := &validate.Options{}
+					o.TdQuoteBodyOptions.Rtmrs = [][]byte{{}, {}, {}, {}}
+					return o
+				}},
+				{"rtmrs-list-with-spare-capacity", func() *validate.Options {
+					o := &validate.Options{}
+					o.TdQuoteBodyOptions.Rtmrs = append(make([][]byte, 0, 9), regs(0), nil, regs(2), nil)
+					return o
+				}},
+				{"anymrtd-with-empty-and-spare", func() *validate.Options {
+					o := &validate.Options{}
+					o.TdQuoteBodyOptions.AnyMrTd = append(make([][]byte, 0, 5), []byte{}, append(make([]byte, 0, 64), raw0[48+136:48+184]...), nil)
+					return o
+				}},
+				{"anymrtd-12-entries-unsorted", func() *validate.Options {
+					o := &validate.Options{}
+					for i := 0; i < 12; i++ {
+						e := world.Fill(fmt.Sprintf("c16-allowed-%d", (i*7)%12), 48)
+						if i == 9 {
+							e = append([]byte(nil), raw0[48+136:48+184]...)
+						}
+						o.TdQuoteBodyOptions.AnyMrTd = append(o.TdQuoteBodyOptions.AnyMrTd, e)
+					}
+					return o
+				}},
+				{"anymrtd-40-entries-descending+rtmrs-descending", func() *validate.Options {
+					o := &validate.Options{}
+					for i := 0; i < 40; i++ {
+						e := bytes.Repeat([]byte{byte(0xf0 - 3*i)}, 48)
+						o.TdQuoteBodyOptions.AnyMrTd = append(o.TdQuoteBodyOptions.AnyMrTd, e)
+					}
+					o.TdQuoteBodyOptions.AnyMrTd = append(o.TdQuoteBodyOptions.AnyMrTd, append([]byte(nil), raw0[48+136:48+184]...))
+					o.TdQuoteBodyOptions.Rtmrs = [][]byte{regs(0), regs(1), regs(2), regs(3)}
+					return o
+				}},
+				{"everything-empty-non-nil", func() *validate.Options {
+					o := &validate.Options{}
+					for _, f := range optFields {
+						f.set(o, make([]byte, 0, 8))
+					}
+					o.TdQuoteBodyOptions.MinimumTeeTcbSvn = make([]byte, 0, 16)
+					o.TdQuoteBodyOptions.Rtmrs, o.TdQuoteBodyOptions.AnyMrTd = make([][]byte, 0, 4), make([][]byte, 0, 4)
+					return o
+				}},
+			}
+			copyOpts := func(o *validate.Options) *validate.Options {
+				cb := func(b []byte) []byte {
+					if b == nil {
+						return nil
+					}
+					return append([]byte{}, b...)
+				}
+				cl := func(l [][]byte) [][]byte {
+					if l == nil {
+						return nil
+					}
+					out := make([][]byte, len(l))
+					for i := range l {
+						out[i] = cb(l[i])
+					}
+					return out
+				}
+				c := *o
+				c.HeaderOptions.QeVendorID = cb(o.HeaderOptions.QeVendorID)
+				t, s := &c.TdQuoteBodyOptions, &o.TdQuoteBodyOptions
+				t.MinimumTeeTcbSvn, t.MrSeam, t.TdAttributes, t.Xfam, t.MrTd = cb(s.MinimumTeeTcbSvn), cb(s.MrSeam), cb(s.TdAttributes), cb(s.Xfam), cb(s.MrTd)
+				t.MrConfigID, t.MrOwner, t.MrOwnerConfig, t.ReportData = cb(s.MrConfigID), cb(s.MrOwner), cb(s.MrOwnerConfig), cb(s.ReportData)
+				t.Rtmrs, t.AnyMrTd = cl(s.Rtmrs), cl(s.AnyMrTd)
+				return &c
+			}
+			for _, vs := range voShapes {
+				for _, opName := range []string{"validate.TdxQuote", "validate.RawTdxQuote"} {
+					id := "write/options=" + vs.name + "/" + opName + lvlTag
+					if !r.Want(id) {
+						continue
+					}
+					q, _ := safeToProto(raw0)
+					raw := append([]byte(nil), raw0...)
+					vo := vs.mk()
+					before := copyOpts(vo)
+					ar, aerr := memwatch.New(1 << 21)
+					if aerr != nil {
+						r.HarnessError("C16: cannot map the arena: %v", aerr)
+						return
+					}
+					if _, rerr := ar.Rehome(q, &raw, vo); rerr != nil {
+						r.HarnessError("C16: %v", rerr)
+						ar.Free()
+						return
+					}
+					out := "unchanged"
+					fault, _ := ar.Guard(func() {
+						if opName == "validate.TdxQuote" {
+							validate.TdxQuote(q, vo)
+						} else {
+							validate.RawTdxQuote(raw, vo)
+						}
+					})
+					switch {
+					case fault != nil:
+						site := faultSite(fault.Stack)
+						r.Violate("write:"+opName+":"+site, id, opName+" writes to memory reachable from the quote / raw input / options: store faulted in "+site, map[string]any{"stack": trimStack(fault.Stack)})
+						out = "WRITE@" + site
+					case !reflect.DeepEqual(copyOpts(vo), before):
+						r.Violate("write:options-value:"+opName, id, fmt.Sprintf("%s changed the caller's options value (option shape %s): %+v became %+v", opName, vs.name, before.TdQuoteBodyOptions, vo.TdQuoteBodyOptions), nil)
+						out = "options-changed"
+					}
 					ar.Free()
-					return
+					r.Eval(id, true, "write:"+out)
 				}
-				before := ar.Snapshot()
-				whole := proto.Clone(q) // the scalar fields of the message are caller-owned memory as well
-				var out string
-				fault, other := ar.Guard(func() { out = op.run(q, raw, vo, w) })
-				switch {
-				case fault != nil:
-					site := faultSite(fault.Stack)
-					r.Violate("write:"+op.name+":"+site, id, fmt.Sprintf("%s writes to memory reachable from the quote / raw input / options (%d protected slices, construction %s): store at arena offset faulted in %s", op.name, n, m.name, site),
-						map[string]any{"stack": trimStack(fault.Stack)})
-					out = "WRITE@" + site
-				case other != nil:
-					out = "panic"
-				case !bytes.Equal(before, ar.Snapshot()):
-					r.Violate("write:snapshot:"+op.name, id, op.name+" changed bytes of the protected arena without faulting", nil)
-					out = "changed"
-				case !proto.Equal(q, whole):
-					r.Violate("write:message-field:"+op.name, id, op.name+" changed a (non-bytes) field of the caller's quote message: "+firstDiff(q, whole.(*pb.QuoteV4)), nil)
-					out = "changed-field"
-				}
-				ar.Free()
-				r.Eval(id, true, "write:"+firstWord(out))
 			}
 		}
 	}
-	// (i') option shapes: validation must leave the caller's options value as it found it — the byte strings (page
-	// protection) and the lists that hold them (comparison with a deep copy), for lists with empty / nil entries too
-	{
-		type voShape struct {
-			name string
-			mk   func() *validate.Options
-		}
-		regs := func(i int) []byte { return append(make([]byte, 0, 64), raw0[48+328+48*i:48+376+48*i]...) }
-		voShapes := []voShape{
-			{"rtmrs-with-empty-entries", func() *validate.Options {
-				o := &validate.Options{}
-				o.TdQuoteBodyOptions.Rtmrs = [][]byte{regs(0), {}, nil, regs(3)}
-				return o
-			}},
-			{"rtmrs-all-empty", func() *validate.Options {
-				o := &validate.Options{}
-				o.TdQuoteBodyOptions.Rtmrs = [][]byte{{}, {}, {}, {}}
-				return o
-			}},
-			{"rtmrs-list-with-spare-capacity", func() *validate.Options {
-				o := &validate.Options{}
-				o.TdQuoteBodyOptions.Rtmrs = append(make([][]byte, 0, 9), regs(0), nil, regs(2), nil)
-				return o
-			}},
-			{"anymrtd-with-empty-and-spare", func() *validate.Options {
-				o := &validate.Options{}
-				o.TdQuoteBodyOptions.AnyMrTd = append(make([][]byte, 0, 5), []byte{}, append(make([]byte, 0, 64), raw0[48+136:48+184]...), nil)
-				return o
-			}},
-			{"anymrtd-12-entries-unsorted", func() *validate.Options {
-				o := &validate.Options{}
-				for i := 0; i < 12; i++ {
-					e := world.Fill(fmt.Sprintf("c16-allowed-%d", (i*7)%12), 48)
-					if i == 9 {
-						e = append([]byte(nil), raw0[48+136:48+184]...)
-					}
-					o.TdQuoteBodyOptions.AnyMrTd = append(o.TdQuoteBodyOptions.AnyMrTd, e)
-				}
-				return o
-			}},
-			{"anymrtd-40-entries-descending+rtmrs-descending", func() *validate.Options {
-				o := &validate.Options{}
-				for i := 0; i < 40; i++ {
-					e := bytes.Repeat([]byte{byte(0xf0 - 3*i)}, 48)
-					o.TdQuoteBodyOptions.AnyMrTd = append(o.TdQuoteBodyOptions.AnyMrTd, e)
-				}
-				o.TdQuoteBodyOptions.AnyMrTd = append(o.TdQuoteBodyOptions.AnyMrTd, append([]byte(nil), raw0[48+136:48+184]...))
-				o.TdQuoteBodyOptions.Rtmrs = [][]byte{regs(0), regs(1), regs(2), regs(3)}
-				return o
-			}},
-			{"everything-empty-non-nil", func() *validate.Options {
-				o := &validate.Options{}
-				for _, f := range optFields {
-					f.set(o, make([]byte, 0, 8))
-				}
-				o.TdQuoteBodyOptions.MinimumTeeTcbSvn = make([]byte, 0, 16)
-				o.TdQuoteBodyOptions.Rtmrs, o.TdQuoteBodyOptions.AnyMrTd = make([][]byte, 0, 4), make([][]byte, 0, 4)
-				return o
-			}},
-		}
-		copyOpts := func(o *validate.Options) *validate.Options {
-			cb := func(b []byte) []byte {
-				if b == nil {
-					return nil
-				}
-				return append([]byte{}, b...)
-			}
-			cl := func(l [][]byte) [][]byte {
-				if l == nil {
-					return nil
-				}
-				out := make([][]byte, len(l))
-				for i := range l {
-					out[i] = cb(l[i])
-				}
-				return out
-			}
-			c := *o
-			c.HeaderOptions.QeVendorID = cb(o.HeaderOptions.QeVendorID)
-			t, s := &c.TdQuoteBodyOptions, &o.TdQuoteBodyOptions
-			t.MinimumTeeTcbSvn, t.MrSeam, t.TdAttributes, t.Xfam, t.MrTd = cb(s.MinimumTeeTcbSvn), cb(s.MrSeam), cb(s.TdAttributes), cb(s.Xfam), cb(s.MrTd)
-			t.MrConfigID, t.MrOwner, t.MrOwnerConfig, t.ReportData = cb(s.MrConfigID), cb(s.MrOwner), cb(s.MrOwnerConfig), cb(s.ReportData)
-			t.Rtmrs, t.AnyMrTd = cl(s.Rtmrs), cl(s.AnyMrTd)
-			return &c
-		}
-		for _, vs := range voShapes {
-			for _, opName := range []string{"validate.TdxQuote", "validate.RawTdxQuote"} {
-				id := "write/options=" + vs.name + "/" + opName
-				if !r.Want(id) {
-					continue
-				}
-				q, _ := safeToProto(raw0)
-				raw := append([]byte(nil), raw0...)
-				vo := vs.mk()
-				before := copyOpts(vo)
-				ar, aerr := memwatch.New(1 << 21)
-				if aerr != nil {
-					r.HarnessError("C16: cannot map the arena: %v", aerr)
-					return
-				}
-				if _, rerr := ar.Rehome(q, &raw, vo); rerr != nil {
-					r.HarnessError("C16: %v", rerr)
-					ar.Free()
-					return
-				}
-				out := "unchanged"
-				fault, _ := ar.Guard(func() {
-					if opName == "validate.TdxQuote" {
-						validate.TdxQuote(q, vo)
-					} else {
-						validate.RawTdxQuote(raw, vo)
-					}
-				})
-				switch {
-				case fault != nil:
-					site := faultSite(fault.Stack)
-					r.Violate("write:"+opName+":"+site, id, opName+" writes to memory reachable from the quote / raw input / options: store faulted in "+site, map[string]any{"stack": trimStack(fault.Stack)})
-					out = "WRITE@" + site
-				case !reflect.DeepEqual(copyOpts(vo), before):
-					r.Violate("write:options-value:"+opName, id, fmt.Sprintf("%s changed the caller's options value (option shape %s): %+v became %+v", opName, vs.name, before.TdQuoteBodyOptions, vo.TdQuoteBodyOptions), nil)
-					out = "options-changed"
-				}
-				ar.Free()
-				r.Eval(id, true, "write:"+out)
-			}
-		}
-	}
+	world.SetLogLevel(0)
 	// aliasing: a parsed quote shares no memory with its input
 	{
 		id := "alias/parsed-vs-input"
